@@ -203,6 +203,12 @@ def build(reg, src):
                            "call_soon_threadsafe(f.set_result/set_exception, v) completes the future unless it raises itself")
 
     reg.extra_checks.append(lambda ctx: reply_is_the_result_rows(src))
+    # "every call gets its own answer" needs every frame to stay in one piece on a connection with several senders (C13's obligation)
+    def frames_in_one_piece(ctx):
+        from contracts import c13 as _c13
+        return _c13.frame_written_atomically(ctx)
+    frames_in_one_piece.__name__ = 'frames-in-one-piece'
+    reg.extra_checks.append(frames_in_one_piece)
 
     from replay import c14 as rp
     reg.replays.append((r'_run', rp.replay_run_cleanup))
